@@ -280,6 +280,35 @@ func c05(r *Run) {
 			}
 		})
 		r.ob("C05.R5:register-links-previous", "a new callback node links to the previous head (pre = Load(closeCallbacks))", fn, nil, okLink, "pre := Load(closeCallbacks)", true)
+		// the read of the head and its replacement are one step: two registrations that interleave would link to the same
+		// predecessor and one callback (the server's untrack callback races with callbacks added by a handler) would be lost
+		isHeadOp := func(op string) func(ssa.Instruction) bool {
+			return func(i ssa.Instruction) bool {
+				a := asAtomic(i)
+				return a != nil && a.Op == op && structFieldOfAddr(a.Addr) == "onEvent.closeCallbacks"
+			}
+		}
+		isMutexLock := func(i ssa.Instruction) bool {
+			f := calleeOf(i)
+			return f != nil && f.Name() == "Lock" && f.Pkg != nil && f.Pkg.Pkg.Path() == "sync"
+		}
+		stores := findIns(fn, isHeadOp("Store"))
+		cas := findIns(fn, isHeadOp("CompareAndSwap"))
+		okAtomic := len(cas) > 0 && len(stores) == 0
+		detail := "head replaced by CompareAndSwap on the value that was loaded"
+		if !okAtomic && len(stores) > 0 {
+			okAtomic = true
+			detail = "Load and Store of the head under a mutex"
+			for _, site := range append(findIns(fn, isHeadOp("Load")), stores...) {
+				ss := &Search{Fn: fn, Stop: isMutexLock}
+				if ss.Find([]Start{Entry(fn)}, isIns(site), false) != nil {
+					okAtomic = false
+					detail = "the head is loaded and stored in two unprotected steps"
+				}
+				s.Visited += ss.Visited
+			}
+		}
+		r.ob("C05.R5:register-is-one-step", "registering a close callback reads the list head and replaces it in one atomic step (under a lock, or by compare-and-swap): interleaved registrations do not lose a callback", fn, nil, okAtomic, detail, true)
 	}
 
 	// ---- R4 closing is monotone; keys are constants --------------------------------------------
